@@ -46,4 +46,22 @@ BOUNDS = {
         "all": "failure plan of 4 symbolic Bools (k-th host call fails), failure kind in {error return, Go panic}; shapes: C02 expr depth<=1, loops, calls; 3 malformed forms x 16 positions. Follow-up battery: 8 names, (+ 1 2), empty input.",
         "assumptions": ["outside: parse-time failures (C13), failures inside lazy forcing/eval (C16), deeper programs"],
     },
+    "C03": {
+        "quick": "18 programs with 3 symbolic holes (recursion depth hole in 0..2); grammar bodies of depth<=1 over 7 forms x 2 skeletons.",
+        "thorough": "grammar bodies of depth<=2 (about 230k programs, ~5 min).",
+        "assumptions": ["oracle: reference evaluator with linked static frames", "outside: deeper nesting, packages, macros"],
+    },
+    "C09": {
+        "all": "9x9 wrapper combinations; counter symbolic >= 3 (space); n in 0..3 (invisible). Mutual recursion is not optimised by design and is outside.",
+        "assumptions": ["the inductive argument: depths at the 2nd and 3rd arrival are equal for an arbitrary (symbolic) counter and accumulator, and the VM is deterministic in (code, depths, arguments)"],
+    },
+    "C15": {
+        "quick": "templates: top list/array of 1..3 elements, elements from 5 kinds (depth 0); splice list length 0..2.",
+        "thorough": "elements may be nested lists/arrays of 1..3 elements (depth 1).",
+        "assumptions": ["outside: hash templates, reader sugar ^ ~ ~@ (ASTs are built directly; the reader is C13's subject), macexpand"],
+    },
+    "C16": {
+        "all": "10 bodies x 8 routes with 3 symbolic holes; 7 strictness programs.",
+        "assumptions": ["outside: typed func declarations, tail-call route, map route for lazy functions"],
+    },
 }
